@@ -433,3 +433,39 @@ def build_T25(tree):
 
 
 TARGETS['T25'] = {'file': 'seg/sop.py', 'build': build_T25}
+
+
+def build_T26(tree):
+    """`omit_empty_frames`: which planes are visited.  The statements of the block in `Segmentation.__init__` (what is judged --
+    the array itself or the quantised fractions --, the "all empty => keep all" fall-back that also switches the per-segment
+    skipping off, the re-filtering of `plane_sort_index`) and of `_get_nonempty_plane_indices` as a literal table the property
+    file pins (`omit_sites_pinned`); the model's `planOrder` / `planeNonEmpty` were written against exactly these."""
+    init = find_func(tree, 'Segmentation.__init__')
+    blk = _one([n for n in ast.walk(init) if isinstance(n, ast.If) and _norm(n.test) == 'omit_empty_frames'
+                and any(isinstance(x, ast.Assign) and 'occupied_array' in ast.unparse(x) for x in ast.walk(n))],
+               'the omit_empty_frames block')
+    entries = []
+
+    def walk(stmts, ctx, name):
+        for st in stmts:
+            if isinstance(st, ast.If):
+                t = _norm(st.test)
+                walk(st.body, ctx + [t], name)
+                walk(st.orelse, ctx + ['not(' + t + ')'], name)
+            elif isinstance(st, (ast.Assign, ast.Return)):
+                entries.append(f'{name} | {" & ".join(ctx) or "-"} | {_norm(st)}')
+            elif isinstance(st, ast.Expr):
+                if isinstance(st.value, ast.Constant) or 'logger.' in ast.unparse(st):
+                    continue
+                entries.append(f'{name} | {" & ".join(ctx) or "-"} | {_norm(st)}')
+            else:
+                raise Unsupported(f'{name}: statement {type(st).__name__} not understood')
+    walk([blk], [], '__init__')
+    fn = find_func(tree, 'Segmentation._get_nonempty_plane_indices')
+    walk(fn.body, [], '_get_nonempty_plane_indices')
+    text = ('/-- the statements that decide which planes the frame loop visits when `omit_empty_frames` is set -/\n'
+            'def segOmitSites : List String :=\n  [' + ',\n   '.join(_lean_str(e) for e in entries) + ']')
+    return text, span_sha([blk, fn])
+
+
+TARGETS['T26'] = {'file': 'seg/sop.py', 'build': build_T26}
